@@ -64,6 +64,24 @@ def list_of(eng, v, line):
             eng.run.assume(z3.ForAll([k], z3.Implies(has[k], z3.Exists([i], z3.And(0 <= i, i < c, keys[i] == k)))), silent=True)
             eng.run.assume(z3.ForAll([i, j], z3.Implies(z3.And(0 <= i, i < j, j < c), keys[i] != keys[j])), silent=True)
             return nl
+        if v.what == 'items':
+            # list(d.items()): a fresh list of (key, value) pairs enumerating the keys once each (same facts as 'values')
+            ety = TTuple([d.kty, d.vty])
+            mk = sort_of(ety).constructor(0)
+            r = eng.alloc('list')
+            nl = ListV(r, ety)
+            ln = eng.heap.get('L.len', arr(Ref, I))
+            eng.heap.set('L.len', z3.Store(ln, r, c))
+            name, da = eng.list_data(nl)
+            row = eng.run.fresh('enumi', arr(I, sort_of(ety)))
+            keys = eng.run.fresh('enumk', arr(I, sort_of(d.kty)))
+            eng.heap.set(name, z3.Store(da, r, row))
+            i, j = z3.Const('i!lo', I), z3.Const('j!lo', I)
+            k = z3.Const('k!lo', sort_of(d.kty))
+            eng.run.assume(z3.ForAll([i], z3.Implies(z3.And(0 <= i, i < c), z3.And(has[keys[i]], row[i] == mk(keys[i], val[keys[i]])))), silent=True)
+            eng.run.assume(z3.ForAll([k], z3.Implies(has[k], z3.Exists([i], z3.And(0 <= i, i < c, keys[i] == k)))), silent=True)
+            eng.run.assume(z3.ForAll([i, j], z3.Implies(z3.And(0 <= i, i < j, j < c), keys[i] != keys[j])), silent=True)
+            return nl
     raise Unsupported(f'list() of {type(v).__name__} at line {line}')
 
 
